@@ -191,4 +191,6 @@ def fragments_for(n, rs, tier="quick"):
         add("mprocess", "q")
     elif n == 9:
         add("gate", "t")
+    elif n == 12:
+        add("mprocess", "q")          # three outcomes
     return out
